@@ -47,3 +47,7 @@ def run(ctx, rep):
     if order is not None and sorted(order) != sorted(KINDS):
         from .lib import fail
         fail(rs, ctx, pf, pf.node, f"instrument sections try kinds {order}; expected exactly the note, star-power and track-event recognisers")
+    rch = rep.rule("chain", "file -> lines (read().splitlines(), utf-8-sig) -> framing -> section route -> dispatcher -> builders: every link "
+                            "hands the lines on unchanged", floor=10)
+    from .chain import check_chain
+    check_chain(ctx, rch, "instrument", strict=True)
